@@ -18,7 +18,7 @@
    REAL chunks of every corpus and generated template (Corr/CorrC07.v, families chk and wld),
    before and after the peephole pass, on every run. *)
 From TeraV Require Import Model.Value Model.Instr Model.Slice Model.VFormat Model.VM Model.World0 Model.StackCheck
-  Proofs.StackCheckSlice Proofs.StackCheckProofs Proofs.FormatUtf8 Proofs.CompileChecks Proofs.StackCheckWorld0.
+  Proofs.StackCheckSlice Proofs.StackCheckProofs Proofs.FormatUtf8 Proofs.CompileChecks Proofs.StackCheckWorld0 Proofs.StackCheckDepth.
 Local Open Scope nat_scope.
 
 (* ---------- the validator is sound: entry points ---------- *)
@@ -117,6 +117,30 @@ Proof. exact get_item_seq_no_panic. Qed.
 
 Theorem C07_slice_never_panics : forall opt v a b c, vm_slice opt v a b c <> RErr ErrPanic.
 Proof. exact vm_slice_no_panic. Qed.
+
+(* ---------- the component recursion guard sees recursion through includes ---------- *)
+
+(* Include hands run's component_recursion_depth to the included template unchanged ... *)
+Theorem C07_include_keeps_depth :
+  forall (W : Type) (wr : W -> str -> option W) (wd : world) f tpl ae depth ch ip s o n t2,
+  nth_error ch ip = Some (Include n) -> assoc_get (w_templates wd) n = Some t2 -> caps s = [] ->
+  run W wr wd (S f) tpl ae depth ch ip s o =
+  match run W wr wd f t2 ae depth (t_root_chunk t2) 0 (include_state s) o with
+  | RDone _ o1 => run W wr wd f tpl ae depth ch (S ip) s o1
+  | RFail e => RFail e
+  | ROutOfFuel => ROutOfFuel
+  end.
+Proof. exact include_keeps_depth. Qed.
+
+(* ... and a component call at the limit starts no nested run: it is an error value. So no run
+   is ever nested deeper than w_max_depth component calls, however includes are interleaved
+   (trace-level statement: C05_depth_bounded). *)
+Theorem C07_component_guard :
+  forall (W : Type) (wr : W -> str -> option W) (wd : world) f tpl ae depth ch ip s o i n,
+  nth_error ch ip = Some i -> i = RenderInlineComponent n \/ i = RenderBodyComponent n ->
+  w_max_depth wd < S depth ->
+  exists e, run W wr wd (S f) tpl ae depth ch ip s o = RFail e.
+Proof. exact component_guard. Qed.
 
 (* ---------- format_is_utf8 ---------- *)
 
